@@ -322,6 +322,7 @@ func (ex *Exec) callFunction(fr *Frame, in ssa.Instruction, fn *ssa.Function, ar
 			panic(abortPath{"static call of closure with free vars"})
 		}
 		nfr.retK = func(st2 *State, results []Value) {
+			logCall(st2, shortFn(fn), fn.Signature, results)
 			cont(st2, fr.fork(), packResults(results))
 		}
 		if nfr.depth > 14 {
@@ -431,11 +432,16 @@ func (ex *Exec) applyContractVals(fr *Frame, in ssa.Instruction, ct *Contract, c
 	for _, c := range ct.Ensures {
 		g, err := env2.EvalBool(c.Expr)
 		if err != nil {
+			if strings.Contains(err.Error(), "callres:") {
+				// the clause talks about calls inside the callee: not expressible at this call site, not assumed
+				continue
+			}
 			panic(abortPath{fmt.Sprintf("contract of %s: ensures %q: %v", calleeName, c.Text, err)})
 		}
 		st.Assume(g)
 		st.learn(g)
 	}
+	logCall(st, short, sig, results)
 	cont(st, fr, packResults(results))
 }
 
@@ -487,6 +493,11 @@ func (ex *Exec) havocSpec(m string, env *SpecEnv, st *State, ct *Contract) {
 			sfail("bad modifies")
 		}
 		p := env.eval(n.Args[0])
+		if iv, isI := p.V.(*IfaceV); isI {
+			// *self for an interface receiver: the object it holds
+			ex.havocRegion(st, iv.Data)
+			return
+		}
 		pt, ok := p.T.Underlying().(*types.Pointer)
 		if !ok {
 			sfail("modifies *x: x is not a pointer")
@@ -515,6 +526,7 @@ func (ex *Exec) havocRegion(st *State, a *Term) {
 	for srt, oldArr := range st.mem.arrs {
 		newArr := FreshVar("mem_r", oldArr.Sort)
 		st.mem.arrs[srt] = newArr
+		RegisterArrayFrame(newArr, oldArr, Rg(a))
 		b := BoundVar("a$r", SAddr)
 		st.Assume(Forall([]*Term{b}, Implies(Not(Eq(Rg(b), Rg(a))), Eq(mk("select", srt, newArr, b), mk("select", srt, oldArr, b)))))
 	}
@@ -545,6 +557,7 @@ func (ex *Exec) havocRange(st *State, et types.Type, s *SliceV) {
 	oldArr := st.mem.arr(srt, st.memGen)
 	newArr := FreshVar("mem_h", oldArr.Sort)
 	st.mem.arrs[srt] = newArr
+	RegisterArrayFrame(newArr, oldArr, Rg(s.Base))
 	a := BoundVar("a$h", SAddr)
 	inRange := inSliceRange(a, s)
 	st.Assume(Forall([]*Term{a}, Implies(Not(inRange), Eq(mk("select", srt, newArr, a), mk("select", srt, oldArr, a)))))
@@ -636,6 +649,7 @@ func (ex *Exec) atLoopHead(fr *Frame, b *ssa.BasicBlock, prev *ssa.BasicBlock, s
 	if ctx, active := fr.loops[b]; active {
 		// back edge: invariant preserved, measure decreases; path ends here
 		env := ex.loopEnv(fr, b, st, ex.entry)
+		env.loopEntry = ctx.headSt
 		evalInv(env, "preserve")
 		if li.spec.Decreases != nil {
 			m1 := env.eval(li.spec.Decreases.Expr)
@@ -647,8 +661,26 @@ func (ex *Exec) atLoopHead(fr *Frame, b *ssa.BasicBlock, prev *ssa.BasicBlock, s
 		return false
 	}
 	// first arrival
+	headSt := st.Clone()
 	env := ex.loopEnv(fr, b, st, ex.entry)
+	env.loopEntry = headSt
 	evalInv(env, "init")
+	// the body is verified from the invariant alone: quantified facts established before the
+	// loop (bulk copies etc.) are dropped here; what the body needs of them belongs in the invariant
+	var dropped []*Term
+	{
+		var kept []*Term
+		for _, a := range st.assumes {
+			if a.Op == "forall" {
+				if _, global := axiomRegion[a.id]; !global {
+					dropped = append(dropped, a)
+					continue
+				}
+			}
+			kept = append(kept, a)
+		}
+		st.assumes = kept
+	}
 	// havoc loop-carried values (header phis) and declared memory
 	base := *st.nextRg
 	*st.nextRg = base + iterGap
@@ -673,10 +705,11 @@ func (ex *Exec) atLoopHead(fr *Frame, b *ssa.BasicBlock, prev *ssa.BasicBlock, s
 	// locals whose address is taken and that are assigned inside the loop live in
 	// regions allocated before the loop: they are covered by "loop N: modifies".
 	env2 := ex.loopEnv(fr, b, st, ex.entry)
+	env2.loopEntry = headSt
 	for _, g := range evalInv(env2, "") {
 		st.AssumeCond(g)
 	}
-	ctx := &loopCtx{li: li}
+	ctx := &loopCtx{li: li, headSt: headSt, dropped: dropped, body: loopBody(b)}
 	if li.spec.Decreases != nil {
 		m0 := env2.eval(li.spec.Decreases.Expr)
 		if m0.U != nil {
@@ -705,6 +738,7 @@ func (ex *Exec) atLoopHead(fr *Frame, b *ssa.BasicBlock, prev *ssa.BasicBlock, s
 	}()
 	outer := st.frameCheck
 	outerR := st.frameCheckRange
+	ctx.outerFC, ctx.outerFR = outer, outerR
 	st.frameCheck = func(ex *Exec, st *State, in ssa.Instruction, a *Term) {
 		if outer != nil {
 			outer(ex, st, in, a)
@@ -718,7 +752,7 @@ func (ex *Exec) atLoopHead(fr *Frame, b *ssa.BasicBlock, prev *ssa.BasicBlock, s
 		if outerR != nil {
 			outerR(ex, st, in, dst, n)
 		}
-		g := Or(IntCmp(">", Rg(dst.Base), IntConst(base+iterGap)), frameRangeGoal(dst, n, mods))
+		g := Or(IntCmp(">", Rg(dst.Base), IntConst(base)), frameRangeGoal(dst, n, mods))
 		if !g.IsTrue() {
 			ex.addObl(st, "frame", lname+":frame", Implies(Neq(n, BVc(0, 64)), g), ex.pos(in))
 		}
@@ -729,7 +763,7 @@ func (ex *Exec) atLoopHead(fr *Frame, b *ssa.BasicBlock, prev *ssa.BasicBlock, s
 // a store inside a loop body is fine if it goes to a region allocated in this
 // iteration, or falls inside the loop's declared modifies set.
 func loopFrameGoal(a *Term, base int64, mods []modItem) *Term {
-	alts := []*Term{IntCmp(">", Rg(a), IntConst(base+iterGap))}
+	alts := []*Term{IntCmp(">", Rg(a), IntConst(base))}
 	for _, m := range mods {
 		switch m.kind {
 		case "under":
@@ -746,4 +780,48 @@ func callArg(in ssa.Instruction, i int) ssa.Value {
 		return c.Call.Args[i]
 	}
 	return nil
+}
+
+func logCall(st *State, name string, sig *types.Signature, results []Value) {
+	if len(results) == 0 {
+		return
+	}
+	if st.callLog == nil {
+		st.callLog = map[string][]TV{}
+	}
+	for _, r := range results {
+		if sl, ok := r.(*SliceV); ok {
+			resultSnapshot[sl] = st.mem.arr(BV(8), st.memGen)
+		}
+	}
+	var tv TV
+	if len(results) == 1 {
+		tv = TV{V: results[0], T: sig.Results().At(0).Type()}
+	} else {
+		tv = TV{V: &TupleV{Elems: results}, T: sig.Results()}
+	}
+	st.callLog[name] = append(st.callLog[name], tv)
+}
+
+// loopBody: blocks of the natural loop with header h (dominated by h and reaching a back edge).
+func loopBody(h *ssa.BasicBlock) map[*ssa.BasicBlock]bool {
+	body := map[*ssa.BasicBlock]bool{h: true}
+	var work []*ssa.BasicBlock
+	for _, p := range h.Preds {
+		if h.Dominates(p) {
+			work = append(work, p)
+		}
+	}
+	for len(work) > 0 {
+		b := work[len(work)-1]
+		work = work[:len(work)-1]
+		if body[b] {
+			continue
+		}
+		body[b] = true
+		for _, p := range b.Preds {
+			work = append(work, p)
+		}
+	}
+	return body
 }
